@@ -39,6 +39,7 @@ type Interp struct {
 	frozenOf map[*Cell]Term
 	dbCells  map[string]*Cell
 	pureAxDone map[string]bool
+	fieldViews map[*Cell][]fieldView
 	ghostOwner map[*Cell]*Cell // ghost map cell -> the object (pointer target) it is attached to
 	entryCellN int             // cells with a larger ID were allocated by the function under verification
 	structNamed map[*types.Struct]types.Type
@@ -421,7 +422,45 @@ func (in *Interp) freshVal(hint string, t types.Type, f *Frame) Val {
 }
 
 // load returns the content of a cell, materialising the (shared) initial content lazily.
+// fieldView: region cell mirroring array field `field` of the struct stored in a cell
+type fieldView struct {
+	field int
+	reg   *Cell
+	n     int64
+}
+
+// fieldViewCell returns (creating it on first use) the region that aliases an array field of the
+// struct in cell sc; the region starts with the field's current content.
+func (in *Interp) fieldViewCell(sc *Cell, field int, cur ArrV, elem types.Type, st *State) *Cell {
+	if in.fieldViews == nil {
+		in.fieldViews = map[*Cell][]fieldView{}
+	}
+	for _, fv := range in.fieldViews[sc] {
+		if fv.field == field {
+			return fv.reg
+		}
+	}
+	reg := in.newCell("fieldview", CRegion, elem)
+	st.store[reg] = ArrV{T: cur.T, N: cur.N}
+	in.fieldViews[sc] = append(in.fieldViews[sc], fieldView{field: field, reg: reg, n: cur.N})
+	in.note("slice of an array field of a struct variable aliases the field (writes through the slice are reflected in the struct)")
+	return reg
+}
+
 func (in *Interp) load(st *State, c *Cell, f *Frame) Val {
+	if views := in.fieldViews[c]; len(views) > 0 {
+		if v, ok := st.store[c]; ok {
+			if sv, isStruct := v.(StructV); isStruct {
+				nf := append([]Val(nil), sv.F...)
+				for _, fv := range views {
+					if rv, ok := st.store[fv.reg]; ok {
+						nf[fv.field] = ArrV{T: rv.(ArrV).T, N: fv.n}
+					}
+				}
+				return StructV{Typ: sv.Typ, F: nf}
+			}
+		}
+	}
 	if v, ok := st.store[c]; ok {
 		return v
 	}
